@@ -22,7 +22,7 @@ RULE = ('fault plan = for every worker but one (the usable one), per remote meth
         'to the fault-free in-process result; application errors surface as errors; exhausted budget => TimeoutError; afterwards '
         'no worker is acquired; a 120 s watchdog catches hangs; non-trivial = a fault hit an issued call and the run still had to '
         'complete; distinct = distinct canonical case JSON'
-        '; also: tasks handed over as Task objects (also blocking ones), an explicit retry budget that is used up but not exceeded (within_budget), fault action presumed_dead (reply parked, worker unregistered, reply delivered after a generated delay or at the moment the caller gives the worker up), every worker timing out 29..50 times on initialisation')
+        '; also: workers that serve one or two tasks and then go away under a later one, tasks handed over as Task objects (also blocking ones), an explicit retry budget that is used up but not exceeded (within_budget), fault action presumed_dead (reply parked, worker unregistered, reply delivered after a generated delay or at the moment the caller gives the worker up), every worker timing out 29..50 times on initialisation')
 ASSUMPTIONS = [
     'in-process fake transport: an unreachable or dead server fails a call immediately with deadline exceeded (code 4)',
     'one worker carries no faults (the property\'s "one worker stays usable"); plans that must complete use the default '
@@ -175,6 +175,14 @@ def strat_tasks(tier):
                           min_size=1, max_size=8, unique_by=lambda t: t[1]))
     case = {'workers': workers, 'tasks': tasks, 'plan': _plan(draw, workers, ['maybe_make'], 5), 'rseed': draw(st.integers(0, 10**6)),
             'answer_after': draw(st.sampled_from([0.005, 0.02, 0.05])), 'answer_at': draw(st.sampled_from(['later', 'later', 'give_up']))}
+    if workers >= 2 and draw(st.integers(0, 3)) == 0:
+      # workers that serve one or two tasks and then go away under a later one (often the last task of the run, while the
+      # other workers have nothing left to do)
+      usable = draw(st.integers(0, workers - 1))
+      case['plan'] = {str(w): {'maybe_make': ['ok'] * draw(st.sampled_from([1, 1, 2])) + [draw(st.sampled_from(['die', 'die_graceful', 'presumed_dead', 'deadline_after']))]}
+                      for w in range(workers) if w != usable}
+      if draw(st.booleans()):
+        case['tasks'] = [['ok', i] for i in range(workers + 1)]      # one task each and one more for whoever is free first
     case['task_form'] = draw(st.sampled_from(['lazy', 'lazy', 'task', 'blocking']))
     if case['task_form'] == 'blocking':
       case['answer_at'] = 'later'      # a blocking submission waits for the answer itself: nobody polls the worker meanwhile
@@ -288,7 +296,7 @@ def strat_sharded(tier):
 
 SCENARIOS = [
     Scenario('as_completed_faults', run_tasks, strategy=strat_tasks, setup=setup, budget={'quick': 250, 'thorough': 3000},
-             shards={'quick': 8, 'thorough': 16}, nondeterministic=True),
+             shards={'quick': 8, 'thorough': 16}, nondeterministic=True, confirm_tries=25),
     Scenario('sharded_faults', run_sharded, strategy=strat_sharded, setup=setup, budget={'quick': 300, 'thorough': 4000},
              shards={'quick': 8, 'thorough': 16}, nondeterministic=True, confirm_tries=25),
 ]
